@@ -40,7 +40,7 @@ func (c04) Gen(rng *rand.Rand, tier string, k int) *Case {
 	var c *Case
 	if rng.Intn(2) == 0 {
 		c = genIndCase(rng, tier, true)
-		ii := makeInd(indByName[c.Entity], c.Cfg, c.Scale)
+		ii := c.ind()
 		n := ii.Idle + 1 + rng.Intn(ii.Idle+8)
 		if n > 70 {
 			n = 70
@@ -114,7 +114,7 @@ func (c04) Run(c *Case, st *Stats) []Violation {
 	case "ind":
 		e := indByName[c.Entity]
 		entity = c.Entity
-		ii := makeInd(e, c.Cfg, c.Scale)
+		ii := c.ind()
 		idle = make([]int, e.NOut)
 		for j := range idle {
 			idle[j] = ii.Idle
@@ -124,7 +124,7 @@ func (c04) Run(c *Case, st *Stats) []Violation {
 			for i := range e.Sig {
 				in[i] = column(snaps, e.Sig[i])
 			}
-			inst := makeInd(e, c.Cfg, c.Scale)
+			inst := c.ind()
 			r := runPipe(PipeOpts{SimOpts: SimOpts{Policy: pol, Record: rec, MaxSteps: 3_000_000}, Cap: cap, StepFeed: step}, in, inst.Build())
 			ok, _, _ := termination(&r.SimOut, r.Closed, r.ProdDone, r.Built)
 			return outcome{outs: r.Outs, avail: r.Avail, ok: ok && r.Err == nil, sim: &r.SimOut}
@@ -133,7 +133,7 @@ func (c04) Run(c *Case, st *Stats) []Violation {
 		entity = specName(c.spec())
 		idle = []int{0}
 		run = func(snaps []*asset.Snapshot, step bool, pol simrt.PolicySpec, cap int, rec bool) outcome {
-			s := buildStrategy(c.spec())
+			s := c.strat()
 			r := runPipe(PipeOpts{SimOpts: SimOpts{Policy: pol, Record: rec, MaxSteps: 3_000_000}, Cap: cap, StepFeed: step}, [][]*asset.Snapshot{snaps},
 				func(in []<-chan *asset.Snapshot) []<-chan strategy.Action {
 					return []<-chan strategy.Action{s.Compute(in[0])}
@@ -202,6 +202,11 @@ func (c04) Run(c *Case, st *Stats) []Violation {
 	if len(late) == 0 && rng.Intn(10) == 0 && n > 0 {
 		cuts = append(cuts, 1+rng.Intn(n))
 	}
+	if rng.Intn(4) == 0 && n > 1 {
+		// a cut inside the warm-up: the prefix run is entitled to nothing there
+		w := max(1, min(idle[0], n-1))
+		cuts = append(cuts, 1+rng.Intn(w))
+	}
 	seen := map[int]bool{}
 	for _, m := range cuts {
 		if seen[m] || m > n {
@@ -222,6 +227,20 @@ func (c04) Run(c *Case, st *Stats) []Violation {
 				for i := 0; i < k; i++ {
 					if !bitsEq(p.outs[j][i], a.outs[j][i]) {
 						add("depends-on-future", desc+fmt.Sprintf("output %d index %d (input position %d) is %v on the prefix of %d positions and %v on the full series", j, i, i+idle[j], p.outs[j][i], m, a.outs[j][i]), a.sim.Decisions)
+						break
+					}
+				}
+				// "exactly the corresponding prefix": whatever else the prefix run emits must also be
+				// the full run's value at that index (nothing is invented at the end of the input)
+				for i := k; i < len(p.outs[j]); i++ {
+					if i >= len(a.outs[j]) {
+						if m < n {
+							add("prefix-run-not-a-prefix", desc+fmt.Sprintf("output %d: the run on the prefix of %d positions yields %d values, the full run on %d positions only %d", j, m, len(p.outs[j]), n, len(a.outs[j])), a.sim.Decisions)
+						}
+						break
+					}
+					if !bitsEq(p.outs[j][i], a.outs[j][i]) {
+						add("prefix-run-not-a-prefix", desc+fmt.Sprintf("output %d index %d is %v on the prefix of %d positions (which is entitled to %d values) and %v on the full series", j, i, p.outs[j][i], m, k, a.outs[j][i]), a.sim.Decisions)
 						break
 					}
 				}
